@@ -13,6 +13,7 @@ import TwSpec
 import TwProofs.Lemmas.EvalStep
 import TwProofs.Lemmas.TextEach
 import TwProofs.Lemmas.ScopeEval
+import TwProofs.Lemmas.TextAssignInt
 
 namespace Tw.C04
 open Tw
@@ -387,5 +388,56 @@ example : evaluateStringPure [] (b "{{x=\"a\"}}@if(c){{x=\"b\"}}{{x}}@end{{x}}")
       b "{{x=\"a\"}}@if(c){{x=\"b\"}}{{x}}@end{{x}}" := by decide
   rw [hs] at this
   exact this
+
+/-! ### type stability against the data, from the source bytes -/
+
+/-- **an assignment cannot change the type of a variable, from the source bytes on**: `{{ k = d }}` — a
+    name other than `loop`, a decimal number, any white space around every token — fails with the
+    type-mismatch error that names the variable, the type it has and `INTEGER`, whenever `k` is bound
+    (in the data, say) to a value of another type.  Lexer (`lex_assign_int`), parser
+    (`parse_assign_int_stmt`, `loop_stmt_rbraces`) and evaluator (`Env.set`) composed. -/
+theorem assignment_of_another_type_is_refused_from_source (custom : List ((VType × Bytes) × Nat)) (data : List (Bytes × GoVal)) (env : Env)
+    (h : envFromMap data = .ok env) (k : Bytes) (hk : isName k) (hloop : (k == b "loop") = false) (old : Val) (hget : env.get k = some old)
+    (hty : (old.type != VType.INTEGER) = true) (d : Bytes) (hd : isDigits d) (hb : digitsToNat d < 2 ^ 63)
+    (g1 g2 g3 g4 : Bytes) (hg1 : allWs g1) (hg2 : allWs g2) (hg3 : allWs g3) (hg4 : allWs g4) :
+    ∃ line, evaluateStringPure custom (assignIntSrc g1 k g2 g3 d g4) data =
+      .fail (failOf "ErrVariableTypeMismatch" line [k, old.typeName, b "INTEGER"] []) := by
+  obtain ⟨prog, t2, t4, hp, hs⟩ := parse_assign_int_source g1 k g2 g3 d g4 hg1 hg2 hg3 hg4 hk hd (by omega)
+  refine ⟨t2.errorLine, ?_⟩
+  unfold evaluateStringPure envOrFail
+  rw [hp]
+  simp only [h, hs]
+  rw [show evalFuel = (evalFuel - 4) + 1 + 1 + 1 + 1 from by decide, evalProg_cons, evalStmt_succ]
+  simp only [stmtBody, calleesAt_expr]
+  have hvt : (Val.int (Int64.ofNat (digitsToNat d))).type = VType.INTEGER := rfl
+  have hvn : (Val.int (Int64.ofNat (digitsToNat d))).typeName = b "INTEGER" := rfl
+  simp only [evalExpr, Res.bind_ok, setVar, Env.set, hloop, Bool.false_eq_true, if_false, hget, hvt, hvn, hty, if_true]
+  simp [Res.bind, resToOut]
+
+/-- … and an assignment of the same type, or to a name that is not bound yet, is accepted and prints nothing -/
+theorem assignment_of_the_same_type_is_accepted_from_source (custom : List ((VType × Bytes) × Nat)) (data : List (Bytes × GoVal)) (env : Env)
+    (h : envFromMap data = .ok env) (k : Bytes) (hk : isName k) (hloop : (k == b "loop") = false)
+    (hget : env.get k = none ∨ ∃ i, env.get k = some (.int i)) (d : Bytes) (hd : isDigits d) (hb : digitsToNat d < 2 ^ 63)
+    (g1 g2 g3 g4 : Bytes) (hg1 : allWs g1) (hg2 : allWs g2) (hg3 : allWs g3) (hg4 : allWs g4) :
+    evaluateStringPure custom (assignIntSrc g1 k g2 g3 d g4) data = .ok [] := by
+  obtain ⟨prog, t2, t4, hp, hs⟩ := parse_assign_int_source g1 k g2 g3 d g4 hg1 hg2 hg3 hg4 hk hd (by omega)
+  unfold evaluateStringPure envOrFail
+  rw [hp]
+  simp only [h, hs]
+  rw [show evalFuel = (evalFuel - 4) + 1 + 1 + 1 + 1 from by decide, evalProg_cons, evalStmt_succ]
+  simp only [stmtBody, calleesAt_expr]
+  rcases hget with hn | ⟨i, hi⟩
+  · simp only [evalExpr, Res.bind_ok, setVar, Env.set, hloop, Bool.false_eq_true, if_false, hn]
+    rw [evalProg_nil]
+    simp [resToOut]
+  · simp only [evalExpr, Res.bind_ok, setVar, Env.set, hloop, Bool.false_eq_true, if_false, hi, Val.type,
+      show (VType.INTEGER != VType.INTEGER) = false from by decide]
+    rw [evalProg_nil]
+    simp [resToOut]
+
+example : ∃ line, evaluateStringPure [] (b "{{ name = 5 }}") [(b "name", .str (b "Ann"))] =
+    .fail (failOf "ErrVariableTypeMismatch" line [b "name", b "STRING", b "INTEGER"] []) :=
+  assignment_of_another_type_is_refused_from_source [] [(b "name", .str (b "Ann"))] [[(b "name", .str (b "Ann"))]] (by rfl) (b "name") (by decide)
+    (by decide) (.str (b "Ann")) (by rfl) (by decide) (b "5") (by decide) (by decide) [32] [32] [32] [32] (by decide) (by decide) (by decide) (by decide)
 
 end Tw.C04
